@@ -28,9 +28,10 @@ const (
 	TGrowArmed
 	TShrinkArmed
 	TFullChain // the target chain is exactly full but the table is below the load factor: the next insert appends a bucket
+	TLongChain // 99 bystander keys collide in the target chain (20-33 buckets long)
 )
 
-var tableNames = [...]string{"plain", "chain2", "growArmed", "shrinkArmed", "fullChain"}
+var tableNames = [...]string{"plain", "chain2", "growArmed", "shrinkArmed", "fullChain", "longChain"}
 
 const (
 	fillTarget = 100 // key indices 100.. : fillers in the target chain
@@ -191,6 +192,14 @@ func (ms *MapScen) setupRaw() (MapLike, MState) {
 			for j := 0; j < slots; j++ {
 				m.Store(fillTarget+j, 1000+j)
 			}
+		}
+	case TLongChain:
+		for j := 0; j < 50; j++ {
+			m.Store(fillTarget+j, 1000+j)
+		}
+		putKeys()
+		for j := 50; j < 99; j++ {
+			m.Store(fillTarget+j, 1000+j)
 		}
 	case TFullChain:
 		putKeys()
